@@ -282,6 +282,9 @@ class Ctx:
         backend = 'z3'
         trivial = False
         use_lemmas = use_lemmas and bool(self.lemmas)
+        if not isinstance(f, bool) and not z3.is_expr(f):
+            # a harness expression such as `xs and xs[0] is y` evaluates to a list / None / object: its truth value is meant
+            f = bool(f)
         if f is True:
             verdict = 'discharged'
             trivial = True
